@@ -70,3 +70,11 @@ Proof.
   - inversion H; reflexivity.
   - rewrite IH; auto.
 Qed.
+
+Lemma NoDup_app_one : forall {A} (l : list A) x, NoDup l -> ~ In x l -> NoDup (l ++ [x]).
+Proof.
+  induction l as [|y l IH]; intros x Hn Hx; cbn; [constructor; [intros []|constructor]|].
+  inversion Hn; subst. constructor.
+  - rewrite in_app_iff. intros [H|[H|[]]]; [contradiction|subst; apply Hx; left; reflexivity].
+  - apply IH; [assumption|intros H; apply Hx; right; exact H].
+Qed.
